@@ -14,3 +14,13 @@ H_CNT1(cnt_isPositiveAfterDecrement, counter_array__isPositiveAfterDecrement(c, 
 H_CNT1(cnt_expand, counter_array__expand(c, w_i))
 H_CNT1(cnt_shrink, counter_array__shrink(c, w_i))
 void h_cnt_swap(void) { struct counter_array *c; size_t w_i = nondet_size_t(), w_j = nondet_size_t(); ghost_g = nondet_size_t(); H_WIT(); counter_array__swap(c, w_i, w_j); CANARY(); }
+
+void h_lvl_get(void) { struct level_array *c; size_t w_i = nondet_size_t(); level_array__get(c, w_i); CANARY(); }
+void h_lvl_set(void) { struct level_array *c; size_t w_i = nondet_size_t(); int w_v = nondet_int(); ghost_g = nondet_size_t(); level_array__set(c, w_i, w_v); CANARY(); }
+void h_lvl_swap(void) { struct level_array *c; size_t w_i = nondet_size_t(), w_j = nondet_size_t(); ghost_g = nondet_size_t(); level_array__swap(c, w_i, w_j); CANARY(); }
+void h_adr_get(void) { struct address_array *c; size_t w_i = nondet_size_t(); address_array__get(c, w_i); CANARY(); }
+void h_adr_expand32to64(void) { struct address_array *c; ghost_g = nondet_size_t(); address_array__expand32to64(c); CANARY(); }
+void h_adr_set(void) { struct address_array *c; size_t w_i = nondet_size_t(); unsigned long w_v = nondet_ulong(); ghost_g = nondet_size_t(); address_array__set(c, w_i, w_v); CANARY(); }
+void h_adr_swap(void) { struct address_array *c; size_t w_i = nondet_size_t(), w_j = nondet_size_t(); ghost_g = nondet_size_t(); address_array__swap(c, w_i, w_j); CANARY(); }
+void h_bv_get(void) { struct bitvector *c; size_t w_i = nondet_size_t(); bitvector__get(c, w_i); CANARY(); }
+void h_bv_set(void) { struct bitvector *c; size_t w_i = nondet_size_t(); _Bool w_v = nondet_bool(); ghost_g = nondet_size_t(); bitvector__set(c, w_i, w_v); CANARY(); }
